@@ -93,6 +93,15 @@ def main(argv):
     for t in proof["theorems"]:
         if not t["ok"]:
             broken.append(dict(what=f"theorem {t['name']} depends on foreign axioms {t['axioms']}"))
+    # thorough tier: Lean's independent re-checker replays the compiled property modules (and everything they import)
+    # through the kernel
+    if ctx.tier == "thorough" and bok:
+        for m in mods:
+            rc, o = C.sh(["lake", "env", "leanchecker", m], cwd=C.LEAN, timeout=3000)
+            ctx.log.append({"step": "lake env leanchecker " + m, "rc": rc, "out": o[-1500:]})
+            proof.setdefault("leanchecker", []).append(dict(module=m, ok=(rc == 0)))
+            if rc != 0:
+                broken.append(dict(what=f"leanchecker rejects {m}", output=o[-3000:]))
     hits = C.audit_sources()
     proof["audit_hits"] = hits
     if hits:
@@ -148,12 +157,13 @@ def finish(ctx, spec, proof, t0):
     cov = dict(ctx.coverage)
     cov.update(obligations=proof["obligations"], discharged=proof["discharged"],
                checker_cmd="lake build " + " ".join(spec.get("lean_modules", [])) +
-                           " && lake env lean <Props file> (#print axioms), source audit grep",
+                           " && lake env lean <Props file> (#print axioms), source audit grep" +
+                           ("; lake env leanchecker <module> (thorough tier)" if ctx.tier == "thorough" else ""),
                trusted_base=spec.get("trusted_base", []) + [
                    "Lean 4.33.0 kernel; axioms per theorem listed under coverage.theorems",
                    "hand-written Lean model tied to the Go code by the correspondence run of this check",
                ],
-               theorems=proof["theorems"], audit_hits=proof["audit_hits"])
+               theorems=proof["theorems"], audit_hits=proof["audit_hits"], leanchecker=proof.get("leanchecker", []))
     ev = dict(property_id=ctx.prop, tier=ctx.tier, seed=ctx.seed, level="proof", coverage=cov,
               assumptions=spec.get("assumptions", []) + ctx.assumptions,
               wall_s=round(time.time() - t0, 2), violations=nviol,
